@@ -1062,11 +1062,14 @@ class Check(PropCheck):
             'expressions (<= 5 steps, <= 3 predicates per step, predicate depth <= 3, three precedence levels, all operators, '
             'functions, axes) on random documents of up to 60 elements in which every element has a numeric attribute; rendered '
             'to text with random white space, quote style and letter case; evaluated from the document, from elements and from '
-            'collections through every entry point; a case is non-trivial when some receiver gives a non-empty result or the '
-            'expression has a predicate, distinct by canonical JSON')
+            'collections through every entry point; plus hostile expression texts (a fixed list of corner inputs, token soup, '
+            '1-3 character mutations of well-formed renderings) on which only raises / parsed structure is compared; a case is '
+            'non-trivial when some receiver gives a non-empty result or the expression has a predicate (hostile: the text has '
+            'more than one character), distinct by canonical JSON')
     assumptions = [
-        'the text of an expression is turned into the flat body-element list by the library\'s regex tokenizers: tie only '
-        '(rendered syntax trees with random white space / quotes / case against the tree sent to the model)',
+        'the regex tokenizers are modelled (AHP/Model/XPathParse.lean, ASCII-exact) and proved to read the canonical text of '
+        'every writable expression as its flat form (parse_render); other renderings (random white space / quotes / case) and '
+        'malformed texts: tie only (the model parses the text the library gets; hostile texts compare the parsed structure)',
         'numbers: theorems over an abstract numeric structure; the driver uses IEEE doubles (Lean Float) like CPython',
         'normalize-space() strips leading/trailing white space only; arithmetic operators share one precedence level, and so do '
         'and/or (left to right): the reading of the property text that the code and the reference interpreter share',
